@@ -198,12 +198,60 @@ def gen_alg(src):
     return out
 
 
+OUT20 = os.path.join(os.path.dirname(OUT), "Dispatch.lean")
+
+
+def gen_dispatch(src):
+    """the two (CType, PolyVars) -> ring tables of bin-ykh/src/app/utils/dispatch.rs (the `poly`-feature branch)"""
+    out = []
+    for macro, name in [("try_euc_poly", "eucPolyTable"), ("try_noneuc_poly", "nonEucPolyTable")]:
+        body = fn_body(src, r"macro_rules!\s+" + macro + r"\s*\{")
+        arms = match_arms(body, r"\(\$args\.c_type, vars\)")
+        lines = []
+        for pat, e in arms:
+            if pat == "_":
+                if e != "None": raise ParseError(f"{macro} default {e}")
+                lines.append("  | _, _ => none"); continue
+            m = re.fullmatch(r"\(CType::(\w+), PolyVars::(\w+)\s*\)", pat)
+            r1 = re.fullmatch(r"run!\(Poly<'([HT])', (\w+)>, \$app, \$args\)", e)
+            r2 = re.fullmatch(r"run!\(Poly2<'H', 'T', (\w+)>, \$app, \$args\)", e)
+            if not m or not (r1 or r2): raise ParseError(f"{macro} arm {pat} => {e}")
+            ring = f".poly{r1.group(1)} .{r1.group(2)}" if r1 else f".polyHT .{r2.group(1)}"
+            lines.append(f"  | .{m.group(1)}, .{m.group(2)} => some ({ring})")
+        out.append(f"/-- generated from `{macro}!` -/\ndef {name} (ct : CType) (v : PolyVars) : Option Ring :=\n  match ct, v with\n" + "\n".join(lines))
+    # try_std: which base types run directly
+    body = fn_body(src, r"macro_rules!\s+try_std\s*\{")
+    arms = match_arms(body, r"\$args\.c_type")
+    std = []
+    for pat, e in arms:
+        m = re.fullmatch(r"CType::(\w+)", pat)
+        r = re.fullmatch(r"run!\((\w+), \$app, \$args\)", e)
+        if m and r:
+            if m.group(1) != r.group(1): raise ParseError(f"try_std arm runs {r.group(1)} for {m.group(1)}")
+            std.append(m.group(1))
+        elif "try_qint" in e: continue
+        else: raise ParseError(f"try_std arm {pat} => {e}")
+    out.append("/-- generated from `try_std!`: the base types run directly over themselves -/\ndef stdDirect : List CType := [" + ", ".join("." + x for x in std) + "]")
+    return out
+
+
+def write_if_changed(path, text):
+    old = open(path).read() if os.path.exists(path) else None
+    if old != text:
+        with open(path, "w") as f:
+            f.write(text)
+        print("rs2lean: regenerated", path)
+    else:
+        print("rs2lean: up to date", os.path.basename(path))
+
+
 def main():
     try:
         parts = []
         parts += gen_crossing(open(os.path.join(REPO, "yui-link/src/link/crossing.rs")).read())
         parts += gen_signs(open(os.path.join(REPO, "yui-link/src/link/link.rs")).read())
         parts += gen_alg(open(os.path.join(REPO, "yui-khovanov/src/kh/alg.rs")).read())
+        parts20 = gen_dispatch(open(os.path.join(REPO, "bin-ykh/src/app/utils/dispatch.rs")).read())
     except (ParseError, OSError) as e:
         print(f"rs2lean: cannot translate: {e}")
         sys.exit(1)
@@ -211,13 +259,10 @@ def main():
             "Finite decision tables of yui-link (crossing.rs, link.rs) and yui-khovanov (alg.rs).\n-/\n"
             "namespace Yuiv.Gen\nopen Yuiv.KhRef\n\n" + "\n\n".join(parts) + "\n\nend Yuiv.Gen\n")
     os.makedirs(os.path.dirname(OUT), exist_ok=True)
-    old = open(OUT).read() if os.path.exists(OUT) else None
-    if old != text:
-        with open(OUT, "w") as f:
-            f.write(text)
-        print("rs2lean: regenerated", OUT)
-    else:
-        print("rs2lean: up to date")
+    write_if_changed(OUT, text)
+    text20 = ("import Yuiv.Model.C20\n/-\nGENERATED by tools/rs2lean.py from /repo/bin-ykh/src/app/utils/dispatch.rs on every ./check run — do not edit.\n-/\n"
+              "namespace Yuiv.Gen20\nopen Yuiv.C20\n\n" + "\n\n".join(parts20) + "\n\nend Yuiv.Gen20\n")
+    write_if_changed(OUT20, text20)
 
 
 if __name__ == "__main__":
